@@ -23,7 +23,7 @@ from ..frontends import c2s, docutils_doctree, s2c
 META = {
     "level": "model_checking",
     "text": "TLC checks the translator model against the declarative wildcard relation for every (pattern, name) within the bound and the filter loops against the declarative selection; every TLC behaviour is replayed into match_with_wildcard / filter_inventories / filter_sphinx_inventories / inv: links, and random larger executions are validated as traces by TLC.",
-    "note": "Bounds: patterns/names over a 4-6 character alphabet incl. '*', '\\\\' and regex metacharacters; inventories <= 2-3 entries over a 24-entry universe x 288 filter quadruples. Python's re engine, docutils and zlib are trusted.",
+    "note": "Bounds: patterns/names over a 4-6 character alphabet incl. '*', '\\\\' and regex metacharacters; inventories <= 2 entries over a 24-entry universe (exhaustive), <= 10 entries in the V leg x 288 filter quadruples. Python's re engine, docutils and zlib are trusted.",
     "technique": "TLA+ spec + TLC exhaustive check; spec-behaviour replay into the code; TLC batch trace validation",
     "specs": ["WildcardOps", "Wildcard", "InvFilter", "WildcardTrace", "InvFilterTrace"],
 }
@@ -148,20 +148,16 @@ def run(ctx):
     ctx.sample({"trace": {"pattern": c2s(traces[3]["p"]), "obs": [(c2s(o["n"]), o["r"]) for o in traces[3]["obs"]]}})
 
     # ---- T/R: filtering ---------------------------------------------------------------
-    me = 2 if quick else 3
-    fconst = {"MaxEntries": me, "DevDropTrailing": False}
+    # (MaxEntries = 3 makes the initial-state set too large for TLC, also in simulation mode: the thorough tier
+    # deepens the V leg instead)
+    fconst = {"MaxEntries": 2, "DevDropTrailing": False}
     cfg = tlc.write_cfg(ctx.wd / "f_mc.cfg", constants={"MaxEntries": 2, "DevDropTrailing": False},
                         invariants=["Correct", "Ordered", "Partial"])
     rf = tlc.run("InvFilter", cfg, wd=ctx.wd, coverage=True)
     tlc.expect_holds(rf, "InvFilter M |= S")
     ctx.add_tlc("InvFilter_mc", rf)
-    if quick:
-        cfg = tlc.write_cfg(ctx.wd / "f_gen.cfg", constants=fconst, invariants=["Emit"])
-        rfg = tlc.run("InvFilter", cfg, wd=ctx.wd)
-    else:
-        cfg = tlc.write_cfg(ctx.wd / "f_gen.cfg", constants=fconst, invariants=["Emit"])
-        rfg = tlc.run("InvFilter", cfg, wd=ctx.wd, simulate="num=300000", depth=6, seed=ctx.seed or 1,
-                      timeout=1500)
+    cfg = tlc.write_cfg(ctx.wd / "f_gen.cfg", constants=fconst, invariants=["Emit"])
+    rfg = tlc.run("InvFilter", cfg, wd=ctx.wd)
     ctx.add_tlc("InvFilter_gen", rfg)
     if len(rfg.records) < 1000:
         raise tlc.MachineryFailure("InvFilter export too small")
@@ -186,7 +182,7 @@ def run(ctx):
     pool_inv, pool_dom, pool_typ = ["k", "k2", "x*y"], ["py", "s", "std"], ["f", "fn", "label"]
     pool_tgt = ["a", "ab", "*", "a.b", "a*b", "b\\", "mod.f"]
     pats = [None, "*", "a", "a*", "\\*", "*b", "k*", "p*", "s*d", "f", "f*", "a\\", "*.*", "a.b", "x\\*y", "b\\"]
-    for t in range(300 if quick else 4000):
+    for t in range(300 if quick else 20000):
         ents = []
         for i_ in rnd.sample(pool_inv, rnd.randint(1, 3)):
             for d in rnd.sample(pool_dom, rnd.randint(1, 2)):
